@@ -92,6 +92,16 @@ type Store struct {
 	maxCompactionLevels  int
 	SlowLogThreshold     time.Duration
 	MetaCtx              *MetaContext
+	parent               *Store // set on contextual stores: the store whose mutable state they share
+}
+
+// isDatasetDeleted reports whether the dataset with the given internal id is deleted.
+// A contextual store asks its parent, since DeleteDataset replaces the parent's map.
+func (s *Store) isDatasetDeleted(id uint32) bool {
+	if s.parent != nil {
+		return s.parent.isDatasetDeleted(id)
+	}
+	return s.deletedDatasets[id]
 }
 
 type BadgerLogger struct { // we use this to implement the Badger Logger interface
@@ -121,6 +131,7 @@ func NewContextualStore(store *Store) *Store {
 			QueriedDatasets: make(map[uint32]struct{}),
 			TransactionSink: make(map[string]struct{}),
 		},
+		parent: store,
 	}
 }
 func (bl BadgerLogger) Errorf(format string, v ...interface{}) { bl.Logger.Errorf(format, v...) }
@@ -725,7 +736,7 @@ func (s *Store) GetEntityAtPointInTimeWithInternalID(
 		currentDatasetID = binary.BigEndian.Uint32(key[10:])
 
 		// check if dataset has been deleted, or must be excluded
-		datasetDeleted := s.deletedDatasets[currentDatasetID]
+		datasetDeleted := s.isDatasetDeleted(currentDatasetID)
 		datasetIncluded := len(targetDatasetIds) == 0 // no specified datasets means no restriction - all datasets are allowed
 		if !datasetIncluded {
 			for _, id := range targetDatasetIds {
@@ -1125,7 +1136,7 @@ func (s *Store) GetRelatedAtTime(from *RelatedFrom, limit int) ([]qresult, *Rela
 					}
 				}
 
-				if s.deletedDatasets[datasetID] || !datasetIncluded {
+				if s.isDatasetDeleted(datasetID) || !datasetIncluded {
 					continue
 				}
 
@@ -1263,7 +1274,7 @@ func (s *Store) GetRelatedAtTime(from *RelatedFrom, limit int) ([]qresult, *Rela
 					}
 				}
 
-				if s.deletedDatasets[datasetID] || !datasetIncluded {
+				if s.isDatasetDeleted(datasetID) || !datasetIncluded {
 					continue
 				}
 
